@@ -130,11 +130,22 @@ type c10 struct {
 	t0       time.Time
 	firstNow time.Time
 	lastNow  time.Time
+	// concurrent callers
+	multi      bool
+	moments    []moment
+	haveMoment []bool
+	yearLog    []int // local civil year after every clock or zone fault, in the order they happened
+	inCall     int   // callers inside the library right now
 }
 
 func (c *c10) fail(class, key string, d map[string]string) {
 	d["lookup"] = fmt.Sprint(c.step)
 	d["lookups_so_far"] = strings.Join(c.resolved, " ; ")
+	if c.multi {
+		// through the scheduler, so that the schedule up to this point is part of the result (replay, shrinking)
+		simrt.Fail(class, key, d)
+		select {}
+	}
 	c.out.Status = "violation"
 	c.out.Violation = &spec.Violation{Class: class, Key: key, Detail: d}
 	c.finish()
@@ -214,225 +225,328 @@ func jiePredicates(m moment, sect int) (preds []string) {
 
 func runC10(s *spec.Spec, logPath string) {
 	setClock(s.Clock)
-	simrt.Solo = true
+	if s.Clock.Zone != "" {
+		probesC["process_zone_named"]++
+	}
 	c := &c10{s: s, out: &spec.Result{}, t0: time.Now()}
+	c.moments = make([]moment, len(s.Lookups))
+	c.haveMoment = make([]bool, len(s.Lookups))
+	nTasks := 1
+	for _, lk := range s.Lookups {
+		if lk.Task+1 > nTasks {
+			nTasks = lk.Task + 1
+		}
+	}
+	if nTasks > 1 {
+		c.runMulti(nTasks, logPath)
+		return
+	}
+	simrt.Solo = true
 	simrt.SoloFail = func(class, key string, d map[string]string) { c.fail(class, key, d) }
-	var moments []moment
-	var lastPillars [][4]string
 	for i, lk := range s.Lookups {
-		c.step = i
-		if lk.Clock != nil {
-			setClock(*lk.Clock)
-			faultsC[lk.Fault]++
-			if lk.Fault == "clock_jump" {
-				probesC["clock_jump_between_lookups"]++
-			} else {
-				probesC["zone_change_between_lookups"]++
-			}
-		}
-		// resolve M
-		var m moment
-		ok := true
-		func() {
-			defer func() {
-				if r := recover(); r != nil {
-					ok = false
-				}
-			}()
-			switch {
-			case lk.Tie != nil:
-				nowT, _ := simrt.PeekClock()
-				ties := scanTies(lk.Base, nowT.In(time.Local).Year(), lk.Tie.Pick)
-				if len(ties) == 0 {
-					ok = false
-					return
-				}
-				m = addSeconds(ties[lk.Tie.Pick%uint64(len(ties))], lk.Tie.OffS)
-				probesC["jie_on_full_hour"]++
-			case lk.Repeat != nil && *lk.Repeat < len(moments):
-				m = moments[*lk.Repeat]
-				probesC["repeat_pillars_other_clock"]++
-			case lk.Jie != nil:
-				tbl := calendar.NewSolarFromYmd(lk.Jie.Year, 6, 15).GetLunar().GetJieQiTable()
-				j := tbl[jieNames[lk.Jie.Idx%12]]
-				m = addSeconds(ofSolar(j), lk.Jie.OffS)
-			default:
-				m = moment(lk.Moment)
-			}
-			m.solar() // validates
-		}()
-		moments = append(moments, m)
-		if !ok || m[0] < 1 || m[0] > 9990 {
-			c.resolved = append(c.resolved, "skipped(invalid moment)")
-			lastPillars = append(lastPillars, [4]string{})
-			continue
-		}
-		argSect := lk.Sect // passed to the library as is; anything but 1 means convention 2
-		sect := lk.Sect
-		if sect != 1 {
-			sect = 2
-		}
-		if argSect != sect {
-			probesC["sect_argument_other_than_1_or_2"]++
-		}
-		p := pillars(m, sect)
-		lastPillars = append(lastPillars, p)
-		// the clock value the lookup is about to read
-		now, have := simrt.PeekClock()
-		if !have {
-			fatal("C10 needs a simulated clock")
-		}
-		if c.firstNow.IsZero() {
-			c.firstNow = now
-		}
-		c.lastNow = now
-		// "the current year" is the civil year of the caller's wall clock, i.e. in the process-local zone
-		// (that is what the library reads, and what an independent reader of the statement took it to mean:
-		// seeded change c10e, which reads the year in UTC, loses the rest of the local year for up to 14 hours
-		// after a local New Year east of Greenwich)
-		curL, curU := now.In(time.Local).Year(), now.UTC().Year()
-		cur := curL
-		base := lk.Base
-		if lk.API != 0 {
-			base = 1900
-		}
-		desc := fmt.Sprintf("lookup(M=%s pillars=%s sect=%d base=%d api=%d now=%s zone=%+ds why=%s)", m, strings.Join(p[:], " "), argSect, base, lk.API,
-			now.UTC().Format(time.RFC3339Nano), zoneOf(now), lk.Why)
-		c.resolved = append(c.resolved, desc)
-		c.sigParts = append(c.sigParts, fmt.Sprintf("%s|%d|%d|%d|%d", m, sect, base, lk.API, curL))
-		setCall("lookup " + desc)
-		reads0 := simrt.ClockReads
-		var l *list.List
-		if pn := safe(func() {
-			switch lk.API {
-			case 0:
-				l = calendar.ListSolarFromBaZiBySectAndBaseYear(p[0], p[1], p[2], p[3], argSect, base)
-			case 1:
-				l = calendar.ListSolarFromBaZiBySect(p[0], p[1], p[2], p[3], argSect)
-			default:
-				l = calendar.ListSolarFromBaZi(p[0], p[1], p[2], p[3])
-			}
-		}); pn != nil {
-			c.fail("LOOKUP_PANIC", "lookup_panicked", map[string]string{"call": desc, "panic": fmt.Sprint(pn)})
-		}
-		setCall("")
-		if simrt.ClockReads != reads0 {
-			probesC["clock_read_by_lookup"]++
-		}
-		var res []moment
-		for e := l.Front(); e != nil; e = e.Next() {
-			res = append(res, ofSolar(e.Value.(*calendar.Solar)))
-		}
-		var rs []string
-		for _, r := range res {
-			rs = append(rs, r.String())
-		}
-		got := strings.Join(rs, ", ")
-		c.results = append(c.results, got)
-		// (c) strictly increasing
-		c.checks++
-		for k := 1; k < len(res); k++ {
-			if !res[k-1].less(res[k]) {
-				c.fail("UNSORTED", "not_strictly_increasing", map[string]string{"call": desc, "got": got})
-			}
-		}
-		// (b) sound
-		for _, r := range res {
-			c.checks++
-			if r[0] < base {
-				c.fail("UNSOUND", "result_before_base_year", map[string]string{"call": desc, "result": r.String(), "got": got})
-			}
-			if q := pillars(r, sect); q != p {
-				c.fail("UNSOUND", "result_has_other_pillars", map[string]string{"call": desc, "result": r.String(), "its_pillars": strings.Join(q[:], " "), "got": got})
-			}
-		}
-		// (a) complete, when M lies between the first Jie of the base year and the end of the current year
-		// lower bound: the first Jie term that falls in civil year `base` (Xiaohan in Gregorian years; in
-		// Julian-calendar years Xiaohan falls in late December of the year before, and the first Jie of the
-		// civil year is Lichun)
-		baseTbl := calendar.NewSolarFromYmd(base, 6, 15).GetLunar().GetJieQiTable()
-		var firstJie moment
-		haveFirst := false
-		for _, jn := range jieNames {
-			j := ofSolar(baseTbl[jn])
-			if j[0] == base && (!haveFirst || j.less(firstJie)) {
-				firstJie, haveFirst = j, true
-			}
-		}
-		if haveFirst && !m.less(firstJie) && m[0] <= cur {
-			c.checks++
-			probesC["complete_checked"]++
-			preds := jiePredicates(m, sect)
-			for _, pr := range preds {
-				if pr == "slot_contains_jie" || pr == "jie_in_first_hour_of_slot" {
-					probesC[pr]++
-				}
-			}
-			if m[3] == 23 || m[3] == 0 {
-				probesC["rat_slot"]++
-			}
-			if lk.Why == "lichun" {
-				probesC["lichun_day"]++
-			}
-			if m[0] == cur {
-				probesC["moment_in_current_year"]++
-			}
-			if base != 1900 {
-				probesC["base_not_default"]++
-			}
-			if curL != curU || near(now) {
-				probesC["near_new_year"]++
-			}
-			found := false
-			for _, r := range res {
-				if sameSlot(m, r, sect) {
-					found = true
-					break
-				}
-			}
-			if !found {
-				key := "no_jie_in_slot"
-				if len(preds) > 0 {
-					key = strings.Join(preds[1:], "&&")
-				}
-				if m[3] == 23 || m[3] == 0 {
-					key += fmt.Sprintf("&&rat_slot_sect%d", sect)
-				}
-				if m[0] == cur && len(preds) == 0 {
-					key += "&&moment_in_current_year"
-				}
-				c.fail("INCOMPLETE", key, map[string]string{"call": desc, "got": got,
-					"expected": "a moment in the same two-hour slot as M", "current_year_local": fmt.Sprint(curL), "current_year_utc": fmt.Sprint(curU)})
-			}
-		} else {
-			probesC["outside_completeness_range"]++
-			if lk.Why == "just_before_base" {
-				probesC["pillars_of_a_moment_just_before_base"]++
-			}
-		}
-		// the caller owns the list it received: use it destructively (drain, reverse, append); a later lookup
-		// must not be affected
-		if l != nil {
-			switch (c.s.Seed + uint64(i)*7 + uint64(c.s.Run)) % 4 {
-			case 0:
-				l.Init()
-			case 1:
-				for e := l.Front(); e != nil; {
-					n := e.Next()
-					l.MoveToFront(e)
-					e = n
-				}
-			case 2:
-				if l.Len() > 0 {
-					l.Remove(l.Front())
-				}
-				l.PushBack(calendar.NewSolarFromYmd(base-1, 1, 1))
-			}
-			probesC["result_list_mutated_by_caller"]++
-		}
+		c.lookup(i, lk)
 	}
 	c.step = len(s.Lookups)
 	c.finish()
+}
+
+// runMulti: several callers make their lookups at the same time under the simulator's scheduler, and the clock and
+// zone faults of one caller land in the middle of the others' calls. Only the C10 oracle speaks here: what the
+// scheduler-level monitors see (a race, a blocked call) is C09's subject and ends the run without a verdict.
+func (c *c10) runMulti(nTasks int, logPath string) {
+	c.multi = true
+	probesC["concurrent_callers_run"]++
+	fns := make([]func(), nTasks)
+	for t := 0; t < nTasks; t++ {
+		t := t
+		fns[t] = func() {
+			for i, lk := range c.s.Lookups {
+				if lk.Task == t {
+					c.lookup(i, lk)
+				}
+			}
+		}
+	}
+	cfg := simConfig(c.s, logPath)
+	abort := func(r *simrt.Result) {
+		if r != nil && r.Violation != nil {
+			switch r.Violation.Class {
+			case "UNSOUND", "INCOMPLETE", "UNSORTED", "LOOKUP_PANIC":
+				c.out.Status = "violation"
+				c.out.Violation = &spec.Violation{Class: r.Violation.Class, Key: r.Violation.Key, Detail: r.Violation.Detail}
+			default:
+				probesC["concurrent_run_ended_by_scheduler_monitor_"+r.Violation.Class]++
+			}
+		}
+		if r != nil && r.Violation == nil && r.Internal != "" {
+			c.out.Status, c.out.Internal = "internal", r.Internal
+		}
+		c.decisionsFrom(r)
+		c.finish()
+	}
+	r := simrt.Run(cfg, fns, abort)
+	c.decisionsFrom(r)
+	c.step = len(c.s.Lookups)
+	c.finish()
+}
+
+func (c *c10) decisionsFrom(r *simrt.Result) {
+	if r == nil {
+		return
+	}
+	tmp := &spec.Result{}
+	fromSim(r, tmp)
+	c.out.Decisions, c.out.Steps, c.out.Switches, c.out.InCall, c.out.Eligible = tmp.Decisions, tmp.Steps, tmp.Switches, tmp.InCall, tmp.Eligible
+}
+
+// lookup resolves, performs and checks one reverse lookup.
+func (c *c10) lookup(i int, lk spec.Lookup) {
+	c.step = i
+	if lk.Clock != nil {
+		setClock(*lk.Clock)
+		faultsC[lk.Fault]++
+		if lk.Clock.Zone != "" {
+			probesC["process_zone_named"]++
+		}
+		if lk.Fault == "clock_jump" {
+			probesC["clock_jump_between_lookups"]++
+		} else {
+			probesC["zone_change_between_lookups"]++
+		}
+		if c.multi {
+			nowT, _ := simrt.PeekClock()
+			c.yearLog = append(c.yearLog, nowT.In(time.Local).Year())
+			if c.inCall > 0 {
+				probesC["clock_fault_while_another_caller_is_inside_a_lookup"]++
+			}
+		}
+	}
+	// resolve M
+	var m moment
+	ok := true
+	func() {
+		defer func() {
+			if r := recover(); r != nil {
+				ok = false
+			}
+		}()
+		switch {
+		case lk.Tie != nil:
+			nowT, _ := simrt.PeekClock()
+			ties := scanTies(lk.Base, nowT.In(time.Local).Year(), lk.Tie.Pick)
+			if len(ties) == 0 {
+				ok = false
+				return
+			}
+			m = addSeconds(ties[lk.Tie.Pick%uint64(len(ties))], lk.Tie.OffS)
+			probesC["jie_on_full_hour"]++
+		case lk.Repeat != nil && *lk.Repeat < len(c.moments) && c.haveMoment[*lk.Repeat]:
+			m = c.moments[*lk.Repeat]
+			probesC["repeat_pillars_other_clock"]++
+		case lk.Jie != nil:
+			tbl := calendar.NewSolarFromYmd(lk.Jie.Year, 6, 15).GetLunar().GetJieQiTable()
+			j := tbl[jieNames[lk.Jie.Idx%12]]
+			m = addSeconds(ofSolar(j), lk.Jie.OffS)
+		default:
+			m = moment(lk.Moment)
+		}
+		m.solar() // validates
+	}()
+	c.moments[i], c.haveMoment[i] = m, true
+	if !ok || m[0] < 1 || m[0] > 9990 {
+		c.resolved = append(c.resolved, "skipped(invalid moment)")
+		return
+	}
+	argSect := lk.Sect // passed to the library as is; anything but 1 means convention 2
+	sect := lk.Sect
+	if sect != 1 {
+		sect = 2
+	}
+	if argSect != sect {
+		probesC["sect_argument_other_than_1_or_2"]++
+	}
+	p := pillars(m, sect)
+	// the clock value the lookup is about to read
+	now, have := simrt.PeekClock()
+	if !have {
+		fatal("C10 needs a simulated clock")
+	}
+	if c.firstNow.IsZero() {
+		c.firstNow = now
+	}
+	c.lastNow = now
+	// "the current year" is the civil year of the caller's wall clock, i.e. in the process-local zone
+	// (that is what the library reads, and what an independent reader of the statement took it to mean:
+	// seeded change c10e, which reads the year in UTC, loses the rest of the local year for up to 14 hours
+	// after a local New Year east of Greenwich)
+	curL, curU := now.In(time.Local).Year(), now.UTC().Year()
+	cur := curL
+	base := lk.Base
+	if lk.API != 0 {
+		base = 1900
+	}
+	desc := fmt.Sprintf("lookup(M=%s pillars=%s sect=%d base=%d api=%d now=%s zone=%+ds why=%s)", m, strings.Join(p[:], " "), argSect, base, lk.API,
+		now.UTC().Format(time.RFC3339Nano), zoneOf(now), lk.Why)
+	c.resolved = append(c.resolved, desc)
+	c.sigParts = append(c.sigParts, fmt.Sprintf("%s|%d|%d|%d|%d", m, sect, base, lk.API, curL))
+	setCall("lookup " + desc)
+	reads0 := simrt.ClockReads
+	log0 := len(c.yearLog)
+	c.inCall++
+	if c.multi {
+		simrt.BeginCall()
+	}
+	if c.multi && c.inCall > 1 {
+		probesC["lookups_overlapping_in_time"]++
+	}
+	var l *list.List
+	if pn := safe(func() {
+		switch lk.API {
+		case 0:
+			l = calendar.ListSolarFromBaZiBySectAndBaseYear(p[0], p[1], p[2], p[3], argSect, base)
+		case 1:
+			l = calendar.ListSolarFromBaZiBySect(p[0], p[1], p[2], p[3], argSect)
+		default:
+			l = calendar.ListSolarFromBaZi(p[0], p[1], p[2], p[3])
+		}
+	}); pn != nil {
+		c.fail("LOOKUP_PANIC", "lookup_panicked", map[string]string{"call": desc, "panic": fmt.Sprint(pn)})
+	}
+	setCall("")
+	c.inCall--
+	if c.multi {
+		simrt.EndCall("after returning")
+	}
+	if simrt.ClockReads != reads0 {
+		probesC["clock_read_by_lookup"]++
+	}
+	if c.multi {
+		// the call overlapped other callers' clock and zone faults: "the current year" it may have read is any of the
+		// local years between its start and its return, so completeness is demanded up to the smallest of them
+		end, _ := simrt.PeekClock()
+		if y := end.In(time.Local).Year(); y < cur {
+			cur = y
+		}
+		for _, y := range c.yearLog[log0:] {
+			if y < cur {
+				cur = y
+			}
+		}
+		if cur != curL {
+			probesC["current_year_changed_during_lookup"]++
+		}
+	}
+	var res []moment
+	for e := l.Front(); e != nil; e = e.Next() {
+		res = append(res, ofSolar(e.Value.(*calendar.Solar)))
+	}
+	var rs []string
+	for _, r := range res {
+		rs = append(rs, r.String())
+	}
+	got := strings.Join(rs, ", ")
+	c.results = append(c.results, got)
+	// (c) strictly increasing
+	c.checks++
+	for k := 1; k < len(res); k++ {
+		if !res[k-1].less(res[k]) {
+			c.fail("UNSORTED", "not_strictly_increasing", map[string]string{"call": desc, "got": got})
+		}
+	}
+	// (b) sound
+	for _, r := range res {
+		c.checks++
+		if r[0] < base {
+			c.fail("UNSOUND", "result_before_base_year", map[string]string{"call": desc, "result": r.String(), "got": got})
+		}
+		if q := pillars(r, sect); q != p {
+			c.fail("UNSOUND", "result_has_other_pillars", map[string]string{"call": desc, "result": r.String(), "its_pillars": strings.Join(q[:], " "), "got": got})
+		}
+	}
+	// (a) complete, when M lies between the first Jie of the base year and the end of the current year
+	// lower bound: the first Jie term that falls in civil year `base` (Xiaohan in Gregorian years; in
+	// Julian-calendar years Xiaohan falls in late December of the year before, and the first Jie of the
+	// civil year is Lichun)
+	baseTbl := calendar.NewSolarFromYmd(base, 6, 15).GetLunar().GetJieQiTable()
+	var firstJie moment
+	haveFirst := false
+	for _, jn := range jieNames {
+		j := ofSolar(baseTbl[jn])
+		if j[0] == base && (!haveFirst || j.less(firstJie)) {
+			firstJie, haveFirst = j, true
+		}
+	}
+	if haveFirst && !m.less(firstJie) && m[0] <= cur {
+		c.checks++
+		probesC["complete_checked"]++
+		preds := jiePredicates(m, sect)
+		for _, pr := range preds {
+			if pr == "slot_contains_jie" || pr == "jie_in_first_hour_of_slot" {
+				probesC[pr]++
+			}
+		}
+		if m[3] == 23 || m[3] == 0 {
+			probesC["rat_slot"]++
+		}
+		if lk.Why == "lichun" {
+			probesC["lichun_day"]++
+		}
+		if m[0] == cur {
+			probesC["moment_in_current_year"]++
+		}
+		if base != 1900 {
+			probesC["base_not_default"]++
+		}
+		if curL != curU || near(now) {
+			probesC["near_new_year"]++
+		}
+		found := false
+		for _, r := range res {
+			if sameSlot(m, r, sect) {
+				found = true
+				break
+			}
+		}
+		if !found {
+			key := "no_jie_in_slot"
+			if len(preds) > 0 {
+				key = strings.Join(preds[1:], "&&")
+			}
+			if m[3] == 23 || m[3] == 0 {
+				key += fmt.Sprintf("&&rat_slot_sect%d", sect)
+			}
+			if m[0] == cur && len(preds) == 0 {
+				key += "&&moment_in_current_year"
+			}
+			c.fail("INCOMPLETE", key, map[string]string{"call": desc, "got": got,
+				"expected": "a moment in the same two-hour slot as M", "current_year_local": fmt.Sprint(curL), "current_year_utc": fmt.Sprint(curU)})
+		}
+	} else {
+		probesC["outside_completeness_range"]++
+		if lk.Why == "just_before_base" {
+			probesC["pillars_of_a_moment_just_before_base"]++
+		}
+	}
+	// the caller owns the list it received: use it destructively (drain, reverse, append); a later lookup
+	// must not be affected
+	if l != nil {
+		switch (c.s.Seed + uint64(i)*7 + uint64(c.s.Run)) % 4 {
+		case 0:
+			l.Init()
+		case 1:
+			for e := l.Front(); e != nil; {
+				n := e.Next()
+				l.MoveToFront(e)
+				e = n
+			}
+		case 2:
+			if l.Len() > 0 {
+				l.Remove(l.Front())
+			}
+			l.PushBack(calendar.NewSolarFromYmd(base-1, 1, 1))
+		}
+		probesC["result_list_mutated_by_caller"]++
+	}
 }
 
 func zoneOf(t time.Time) int {
